@@ -64,6 +64,10 @@ def PN.tipLength : PN → Rat | .mk _ _ _ t => t
 def PN.name : PN → Nat | .mk n _ _ _ => n
 def PN.withLength : PN → Rat → PN | .mk n c _ t, l => .mk n c l t
 def PN.withTipLength : PN → Rat → PN | .mk n c l _, t => .mk n c l t
+/-- `numpy.eye(n)` -/
+def eye : Arr := fun a b => if a = b then 1 else 0
+/-- `PhyloNode(name)` -/
+def PN.leaf (name : Nat) : PN := .mk name [] 0 0
 /-- `PhyloNode()` -/
 def PN.new : PN := .mk 0 [] 0 0
 /-- `p.children.append(c)` -/
